@@ -67,10 +67,10 @@ def module_of(side):
     return eval(_MODEXPR['code'], {'os': _Os})
 
 
-def build(rp, nsides, eager=False):
+def build(rp, nsides, eager=False, net=None, first=0):
     import radical.utils as ru
     from radical.pilot import constants as rpc
-    net = Net(eager)
+    net = net or Net(eager)
 
     class Pub(object):
         def __init__(self, channel, url=None, **kw):
@@ -81,6 +81,9 @@ def build(rp, nsides, eager=False):
         def __init__(self, channel, topic=None, cb=None, url=None, **kw):
             self.url, self.cb = url, cb
             net.subscribe(url, cb)
+            # (the listener of a real subscriber is live from here on: what is published on the channel at this
+            #  very moment is handed to the callback; an exception in the callback is logged by the listener, not raised)
+            if getattr(net, 'on_subscribe', None): net.on_subscribe(url, cb)
         def stop(self): net.unsubscribe(self.url, self.cb)
     net.Pub = Pub
 
@@ -88,7 +91,7 @@ def build(rp, nsides, eager=False):
     ru.zmq.Publisher, ru.zmq.Subscriber = Pub, Sub
     sessions = []
     try:
-        for s in range(nsides):
+        for s in range(first, nsides):
             sess = object.__new__(rp.Session)
             sess._module  = module_of(s)
             sess._role    = sess._PRIMARY if s == 0 else sess._AGENT_0
@@ -146,6 +149,60 @@ def run_publish(rp, nsides, side, msg, channel_idx):
     net.put('mem://%d/%s' % (side, ch), ch, to_msg(msg))
     quiet = net.run()
     return got, quiet, net.hops
+
+
+def run_join(rp, nsides):
+    """sides 0..n-2 are up and exchange messages; side n-1 (a further pilot) connects: while its four forwarders are set
+    up, each of them is handed one message that is on its source channel at the moment its subscription goes live - a
+    flagged message of this side on the local channels, a message of the client on the proxy channels.
+    Returns per message where it was seen, and what the listeners logged."""
+    from radical.pilot import constants as rpc
+    net, _ = build(rp, nsides - 1)
+    j = nsides - 1
+    seen, errs, sent = {}, [], []
+    def rec(where):
+        def cb(t, m): seen.setdefault(m.get('body'), []).append(where)
+        return cb
+    for s in range(nsides):
+        for ch in (rpc.CONTROL_PUBSUB, rpc.STATE_PUBSUB):
+            net.subscribe('mem://%d/%s' % (s, ch), rec('side %d %s' % (s, ch)))
+    for ch in (rpc.PROXY_CONTROL_PUBSUB, rpc.PROXY_STATE_PUBSUB):
+        net.subscribe('mem://proxy/%s' % ch, rec('proxy %s' % ch))
+    def on_subscribe(url, cb):
+        body = 500 + len(sent)
+        if url.startswith('mem://%d/' % j):   m, kind = {'body': body, 'fwd': True}, 'local'
+        elif url.startswith('mem://proxy/'): m, kind = {'body': body, 'origin': module_of(0), 'fwd': False}, 'proxy'
+        else: return
+        sent.append((body, kind, url.split('/')[-1]))
+        try: cb(url.split('/')[-1], copy.deepcopy(m))
+        except Exception as e: errs.append('%s: %s' % (url, type(e).__name__))
+    net.on_subscribe = on_subscribe
+    build(rp, nsides, net=net, first=j)
+    net.on_subscribe = None
+    quiet = net.run(limit=2000)
+    return sent, seen, errs, quiet
+
+
+def join_monitor(rp, nsides, sent, seen, errs, quiet):
+    from radical.pilot import constants as rpc
+    j = nsides - 1
+    pair = {rpc.CONTROL_PUBSUB: rpc.PROXY_CONTROL_PUBSUB, rpc.STATE_PUBSUB: rpc.PROXY_STATE_PUBSUB}
+    back = {v: k for k, v in pair.items()}
+    if errs:
+        return ('join:forwarder-raised-on-a-message-received-during-setup', '%s (the listener only logs it: the message is lost)' % errs)
+    if len(sent) != 4 or not quiet:
+        return ('join:setup-differs', 'messages handed to forwarders: %s, quiet: %s' % (sent, quiet))
+    for body, kind, ch in sent:
+        w = sorted(seen.get(body, []))
+        if kind == 'local':
+            want = sorted(['proxy %s' % pair[ch]] + ['side %d %s' % (s, ch) for s in range(nsides) if s != j])
+        else:
+            want = ['side %d %s' % (j, back[ch])]
+        if w != want:
+            return ('join:message-received-during-setup-not-delivered-exactly-once',
+                    'a %s message the connecting side\'s forwarder for %s received as its subscription went live was seen at %s, expected %s'
+                    % ('flagged local' if kind == 'local' else 'client', ch, w, want))
+    return None
 
 
 def monitor(nsides, side, msg, got, quiet):
@@ -447,6 +504,14 @@ def run(ctx):
                             ctx.fail(bad[0], bad[1], {'nsides': nsides, 'side': side, 'msg': msg, 'channel': ch},
                                      observed={'deliveries': {str(k): len(v) for k, v in got.items()}, 'hops': hops})
     ctx.sample({'op': ops[-1], 'deliveries': impl[-1]}, limit=2)
+    for nsides in range(2, nmax + 1):
+        sent, seen, errs, quiet = run_join(rp, nsides)
+        ctx.case({'join': nsides}, nontrivial=True)
+        bad = join_monitor(rp, nsides, sent, seen, errs, quiet)
+        if bad:
+            ctx.fail(bad[0], bad[1], {'join': nsides})
+    ctx.obligation('a side that connects while the others exchange messages: what each of its forwarders receives as its subscription '
+                   'goes live is delivered exactly once (2..%d sides)' % nmax, 'tie', True, '')
     close_cases(rp, ctx)
     # message sequences: forwarders are stateless -> each message behaves as if alone
     rng = ctx.rng
@@ -483,7 +548,18 @@ def run(ctx):
     ctx.trusted += ['harness/props/c16.py in-memory pubsub network replacing ru.zmq.Publisher/Subscriber']
 
 
+def replay_join(ctx, data):
+    rp = rpload.load()
+    n = data['input']['join']
+    sent, seen, errs, quiet = run_join(rp, n)
+    bad = join_monitor(rp, n, sent, seen, errs, quiet)
+    print(sent, seen, errs); print(bad)
+    return not bad
+
+
 def replay(ctx, data):
+    if 'join' in data['input']:
+        return replay_join(ctx, data)
     rp = rpload.load()
     i = data['input']
     if 'msgs' in i:
